@@ -83,7 +83,10 @@ func genValue(t *rapid.T, cs ColSpec, label string) Value {
 	switch cs.Kind {
 	case KString:
 		v := genString(t, label)
-		if cs.Merge == MConcat && len(v) > 40 {
+		if cs.Merge == MSetOrAppend && len(v) > 0 && rapid.Bool().Draw(t, label+"-set") {
+			v = "=" + v
+		}
+		if (cs.Merge == MConcat || cs.Merge == MSetOrAppend) && len(v) > 40 {
 			// a concatenating merge must not grow a value beyond the format's 65535-byte limit
 			v = v[:40]
 		}
@@ -142,7 +145,7 @@ func genSchema(t *rapid.T, cfg SchemaCfg) *Schema {
 			case k.Numeric():
 				cs.Merge = MMulAdd
 			case k == KString:
-				cs.Merge = rapid.SampledFrom([]MergeKind{MConcat, MMix, MMax}).Draw(t, "smerge")
+				cs.Merge = rapid.SampledFrom([]MergeKind{MConcat, MMix, MMax, MSetOrAppend}).Draw(t, "smerge")
 			case k == KRecord:
 				cs.Merge = rapid.SampledFrom([]MergeKind{MRecSum, MRecMix}).Draw(t, "rmerge")
 			}
@@ -160,7 +163,7 @@ func genSchema(t *rapid.T, cfg SchemaCfg) *Schema {
 		s.Cols = append(s.Cols, cs)
 	}
 	if cfg.EnsureLenMerge && rapid.Bool().Draw(t, "ensure-len-merge") {
-		s.Cols = append(s.Cols, ColSpec{Name: fmt.Sprintf("c%d_lstring", n), Kind: KString, Merge: rapid.SampledFrom([]MergeKind{MConcat, MMax}).Draw(t, "lmerge")})
+		s.Cols = append(s.Cols, ColSpec{Name: fmt.Sprintf("c%d_lstring", n), Kind: KString, Merge: rapid.SampledFrom([]MergeKind{MConcat, MMax, MSetOrAppend}).Draw(t, "lmerge")})
 	}
 	if cfg.Key == 2 || (cfg.Key == 1 && rapid.IntRange(0, 2).Draw(t, "keyed") == 0) {
 		s.Key = len(s.Cols)
@@ -308,7 +311,7 @@ func genTxn(t *rapid.T, m *Model, recent []uint32, cfg TxnCfg) TxnSpec {
 	var inserts []int // indexes of successful insert steps (for own updates)
 	deleting := map[uint32]bool{}
 	stored := map[uint32]bool{}
-	creating := map[string]bool{} // keys that a creating operation of this txn uses
+	creating := map[string]bool{}  // keys that a creating operation of this txn uses
 	failedCreate := map[int]bool{} // steps whose failing callback belongs to an insert (a row that is not created)
 	ctx := &txnGenCtx{lenMerged: map[string]bool{}}
 	rk := func(row uint32) string { return fmt.Sprintf("r%d", row) }
